@@ -7,6 +7,7 @@ CONSTANTS
   FixEnqueue = FALSE
   FixBatch = FALSE
   LossySend = TRUE
+  HasKeepalive = TRUE
 INVARIANTS TypeOK InSync
 
 CHECK_DEADLOCK FALSE
